@@ -444,6 +444,15 @@ def _r5_r6(model, res, c, g):
                 res.ob('R6', 'lexer:t_STRING', 'accepts %s' % good, ok)
                 if not ok:
                     res.violation('R6', 'lexer:t_STRING:rejects', g.lexer_module.where(t.node), 'the string token rejects the literal %s' % good, func='t_STRING')
+            # every run of characters between two quotes of one kind - backslashes, the other quote, line breaks included - is one literal
+            for spec_re, q in ((r'"[^"]*"', 'double'), (r"'[^']*'", 'single')):
+                S_ = rx.build(spec_re)
+                w = rx.difference_witness(S_, T, rx.alphabet([T, S_]))
+                res.ob('R6', 'lexer:t_STRING', 'L(%s) is included in L(STRING)' % spec_re, w is None, 'counter-example %r' % w)
+                if w is not None:
+                    res.violation('R6', 'lexer:t_STRING:rejects-literal', g.lexer_module.where(t.node),
+                                  'the %s-quoted literal %s is not one STRING token (e.g. a text ending in a backslash): the formula is rejected '
+                                  'instead of evaluating to the characters between the quotes' % (q, w), case=w, func='t_STRING')
             for bad in ('"ab', 'ab"', '"a"b"'):
                 ok = not T.accepts(bad)
                 res.ob('R6', 'lexer:t_STRING', 'rejects %s' % bad, ok)
